@@ -175,7 +175,7 @@ pub fn gen_program(r: &mut Rng, flavour: usize) -> Vec<u8> {
     g.a.finish()
 }
 
-pub const FIXED: [&str; 14] = [
+pub const FIXED: [&str; 15] = [
     "6003600501",                          // 5 + 3
     "600360050300",                        // 5 - 3 (operand order)
     "6001600260036004818391",              // DUP / SWAP depths
@@ -187,6 +187,7 @@ pub const FIXED: [&str; 14] = [
     "602a6000526000516020526020515f",      // memory round trips
     "602a600155600154600255",              // storage round trip
     "60016008576002600155005b6003600155",  // writes on the two sides of a branch
+    "600760176011565b600f60106011565b005b60019057565b00",  // a subroutine's JUMPI reached twice: valid target, then a bad one
     "602a600160020155600354",              // computed key then literal load
     "60077fffffffffffffffffffffffffffffffffffffffffffffffffffffffffffffffff600209",   // MULMOD with a wrapping product
     "7faa000000000000000000000000000000000000000000000000000000000000007f20000000000000000000000000000000000000000000000000000000000000001a",      // BYTE(2^253, 0xaa << 248)
